@@ -67,7 +67,7 @@ OpsGK == { OpKV("set_keyword", k, v) : k \in GKeys, v \in { <<>>, <<B("x1x")>> }
 GTKeys == { B("a0"), B("b1"), B("h0"), B("k0"), B("z9") }
 OpsGT == { OpKV("set_tfield", k, v) : k \in GTKeys, v \in { <<>>, <<B("hybrid")>> } }
          \cup { OpK("remove_tfield", k) : k \in GTKeys } \cup { OpK("tfield", k) : k \in GTKeys }
-GTags == { B("a"), B("b"), B("c"), B("d"), B("e5"), B("f") }
+GTags == { B("a"), B("b"), B("c"), B("d"), B("e5"), B("f"), B("g") }
 OpsGX == { OpS("add_tag", x) : x \in GTags } \cup { OpS("remove_tag", x) : x \in GTags } \cup { OpS("has_tag", x) : x \in GTags }
 
 (* the product machine: every operation, two or three arguments each        *)
@@ -114,7 +114,7 @@ Ops == IF Mode = "hist"
               [] Part = "GU" -> OpsGU [] Part = "GK" -> OpsGK [] Part = "GT" -> OpsGT [] Part = "GX" -> OpsGX
 
 (* bound the private-tag bag (it is the only unbounded component)           *)
-Bounded(v) == Len(v.priv) <= (IF Part = "GX" THEN 6 ELSE 3)
+Bounded(v) == Len(v.priv) <= (IF Part = "GX" THEN 7 ELSE 3)
 
 (* start values: default(), or a parsed locale that already carries every   *)
 (* kind of extension                                                        *)
